@@ -455,15 +455,12 @@ def judge(case, obs):
             return 'in-domain call raised %s: %s' % (obs['exc'], obs['msg'][:120])
         return None
 
-    # ---- arity: a count that differs from the documented one is reported as such (ArgumentError), whatever the
-    # surplus arguments are -- in particular it is never absorbed by a hidden parameter of the underlying callable
+    # ---- arity: a count that differs from the documented one raises a student-facing error, whatever the surplus
+    # arguments are -- in particular it is never absorbed by a hidden parameter of the underlying callable
     def must_arity():
         if obs['status'] == 'ret':
             return 'wrong number of arguments (%d): returned %r instead of a student-facing error' % (n, obs['value'])
-        if obs['exc'] != 'ArgumentError':
-            return ('wrong number of arguments (%d) reported as %s (%s) instead of the argument-count error'
-                    % (n, obs['exc'], obs['msg'][:100]))
-        return None
+        return None      # which student-facing class it is stays with the correspondence (non-student-facing: rejected above)
     if wrong_count(fname, n):
         return must_arity()
 
